@@ -24,7 +24,7 @@ from exo.core.prelude import Sym, null_srcinfo
 
 OPS = ["+", "-", "*", "/", "%"]
 COP = {"+": "CAdd", "-": "CSub", "*": "CMul", "/": "CDiv", "%": "CMod"}
-REAL_ERRORS = (AssertionError, ZeroDivisionError, KeyError, AttributeError, IndexError, TypeError)
+REAL_ERRORS = (AssertionError, ZeroDivisionError, KeyError, AttributeError, IndexError, TypeError, ValueError)
 SI = null_srcinfo()
 NVARS, WINS = 4, (5, 6)
 
@@ -457,6 +457,57 @@ class Cases:
                      ("tensor" if "TyTensor" in model else "window") + ":" + ("mix" if "P" in kinds and "I" in kinds else kinds[:1]),
                      sample={"type": model[:120], "acc": "; ".join(acc_c)[:200], "real": r[1]})
 
+    # -- new_varname / push / pop on the real Compiler (created without its constructor) vs ModelNames.v
+    NAME_POOL = ["x", "x", "x_1", "x_1", "x_2", "x_1_1", "i", "i", "i_1", "i_2", "t", "t_1", "y", "x_01", "x_9", "x_09", "a_b", "w_1x"]
+
+    def names(self, n):
+        rng = self.rng
+        for k in range(n):
+            malformed = rng.random() < 0.1
+            ops, depth, sid = [("decl", 1, "ctxt")], 1, 2
+            for _ in range(rng.randint(3, 14)):
+                r = rng.random()
+                if r < 0.2 and depth < 5:
+                    ops.append(("push", rng.random() < 0.5))
+                    depth += 1
+                elif r < 0.35 and depth > 1:
+                    ops.append(("pop",))
+                    depth -= 1
+                else:
+                    nm = rng.choice(self.NAME_POOL + (["x_", "x_"] if malformed else []))
+                    ops.append(("decl", sid, nm))
+                    sid += 1
+
+            class _R:
+                def enter_scope(self):
+                    pass
+
+                def exit_scope(self):
+                    pass
+            d = object.__new__(LC.Compiler)
+            d.env, d.names, d.envtyp, d.mems, d._tab, d.range_env = ChainMap(), ChainMap(), {}, {}, "", _R()
+            got = []
+            for op in ops:
+                if op[0] == "decl":
+                    r = real_call(LC.Compiler.new_varname, d, Sym(op[2]), None)
+                    if r[0] != "ok":  # int("") of the regular expression's empty digit group: the run stops here
+                        got.append(None)
+                        break
+                    got.append(r[1])
+                elif op[0] == "push":
+                    if op[1]:
+                        LC.Compiler.push(d)
+                    else:
+                        LC.Compiler.push(d, only="env")
+                else:
+                    LC.Compiler.pop(d)
+            ops_c = coq_list(ops, lambda o: "(NDecl %d %s)" % (o[1], coq_str(o[2])) if o[0] == "decl" else "NPush" if o[0] == "push" else "NPop")
+            exp_c = coq_list(got, lambda g: "None" if g is None else "(Some %s)" % coq_str(g))
+            renamed = sum(1 for o, g in zip([o for o in ops if o[0] == "decl"], got) if g is not None and g != o[2])
+            self.add("new_varname", "chk_names %s %s" % (ops_c, exp_c), {"ops": ops, "real": got}, tuple(ops),
+                     "error" if None in got else "renamed%d" % min(renamed, 3),
+                     sample={"ops": [" ".join(map(str, o)) for o in ops], "names": got})
+
     # -- values of emitted texts (gcc) against floor arithmetic and against the model
     def value(self, n):
         rng = self.rng
@@ -481,14 +532,14 @@ class Cases:
 
 # ---------------------------------------------------------------------------------------------- running the shards
 HEADER = """From Coq Require Import ZArith List Bool String.
-From Backend Require Import Model Gen_CIR ModelComp ModelCheck.
+From Backend Require Import Model Gen_CIR ModelComp ModelCheck ModelNames.
 Import ListNotations.
 Local Open Scope Z_scope.
 """
 
 
-def run_shards(ck, lines, workdir, per=450):
-    """lines: [(stream, term, descr)] -> counts agreement / divergence per stream"""
+def start_shards(lines, workdir, per=450, parallel=6):
+    """write the shards and start evaluating them in the background (coqc processes); -> handle for finish_shards"""
     shards = [lines[i:i + per] for i in range(0, len(lines), per)]
     files = []
     for k, sh in enumerate(shards):
@@ -498,23 +549,52 @@ def run_shards(ck, lines, workdir, per=450):
         f.write_text(body)
         files.append(f)
 
-    def one(f):
-        return common.sh(["coqc", "-Q", str(common.COQ / "Backend"), "Backend", "-Q", str(common.COQ / "Core"), "Core", str(f)],
-                         timeout=600, cwd=str(workdir))
-    with ThreadPoolExecutor(max_workers=6) as pool:
-        outs = list(pool.map(one, files))
-    for sh, (rc, out), f in zip(shards, outs, files):
-        m = re.search(r"=\s*\[(.*?)\]\s*:\s*list nat", out, flags=re.S)
-        if rc != 0 or not m:
-            ck.broken_obligation("correspondence-shard:" + f.name, out[-600:])
-            ck.log("shard %s did not evaluate: %s" % (f.name, out[-300:]))
+    # one background shell running at most `parallel` coqc processes (no Python threads: the search forks workers)
+    cmd = ("ls Cases_*.v | xargs -P %d -I{} sh -c 'timeout 900 coqc -Q %s Backend -Q %s Core {} > {}.out 2>&1; echo $? > {}.rc'"
+           % (parallel, common.COQ / "Backend", common.COQ / "Core"))
+    proc = subprocess.Popen(["bash", "-c", cmd], cwd=str(workdir), stdout=subprocess.DEVNULL, stderr=subprocess.DEVNULL)
+    return {"proc": proc, "shards": shards, "files": files}
+
+
+def _shard_result(out: str):
+    m = re.search(r"=\s*\[(.*?)\]\s*:\s*list nat", out, flags=re.S)
+    return None if not m else {int(x) for x in re.findall(r"\d+", m.group(1))}
+
+
+def finish_shards(ck, h):
+    """collect the shard results: agreement / divergence per stream.  A shard that was killed or timed out (machine
+    load, a concurrent run) is retried once, sequentially; if it still yields no result it is counted as not evaluated.
+    The correspondence is reported broken only when coqc ran and a case disagreed or coqc reported an error."""
+    try:
+        h["proc"].wait(timeout=3600)
+    except subprocess.TimeoutExpired:
+        h["proc"].kill()
+    for sh, f in zip(h["shards"], h["files"]):
+        outp = f.parent / (f.name + ".out")
+        out = outp.read_text() if outp.exists() else ""
+        bad = _shard_result(out)
+        if bad is None and "Error" not in out:
+            rc, out = common.sh(["coqc", "-Q", str(common.COQ / "Backend"), "Backend", "-Q", str(common.COQ / "Core"), "Core", str(f)],
+                                timeout=1200, cwd=str(f.parent))
+            bad = _shard_result(out)
+        if bad is None:
+            if "Error" in out:
+                ck.broken_obligation("correspondence-shard:" + f.name, "coqc reports an error: " + out[-800:])
+                ck.log("shard %s: coqc error: %s" % (f.name, out[-400:]))
+            else:
+                ck.cov["shards_not_evaluated"] = ck.cov.get("shards_not_evaluated", 0) + 1
+                ck.log("shard %s was not evaluated (killed / timed out twice; not counted as a disagreement): %s"
+                       % (f.name, out[-300:]))
             continue
-        bad = {int(x) for x in re.findall(r"\d+", m.group(1))}
         for i, (stream, term, descr) in enumerate(sh):
             if i in bad:
                 ck.corr_diverge(stream, dict(descr, model_check=term[:600]))
             else:
                 ck.corr_agree(stream)
+
+
+def run_shards(ck, lines, workdir, per=450):
+    finish_shards(ck, start_shards(lines, workdir, per))
 
 
 def run_values(ck, cs: Cases, workdir):
